@@ -183,7 +183,13 @@ def check_case(label, data, info, res: Result):
         check_entry_points(data, o, res)
     if SHARED["parser"] is not None:
         # same input through a Parser reused across the whole shard: same tree expected
+        if SHARED.get("other") is not None and SHARED["prev"] is not None:
+            # a second long-lived Parser, used alternately (on the previous input)
+            lab.parse(SHARED["prev"], parser=SHARED["other"])
         o2 = lab.parse(data, parser=SHARED["parser"])
+        if SHARED["n"] % 8 == 0:
+            o2 = lab.parse(data, parser=SHARED["parser"])  # same input, second time
+            res.count("same-input-twice-runs")
         same = o2.verdict() == o.verdict()
         if same and o.verdict() is True:
             try:
@@ -243,6 +249,7 @@ def check_case(label, data, info, res: Result):
 def run_shard(tier, shard, res: Result):
     from .c01 import reuse_applies
     SHARED["parser"] = lab.sl_parser.Parser() if reuse_applies(shard) else None
+    SHARED["other"] = lab.sl_parser.Parser() if reuse_applies(shard) else None
     tmp = tempfile.NamedTemporaryFile(prefix="rv-c03-", suffix=".sieve", delete=False)
     tmp.close()
     SHARED["tmp"] = tmp.name
